@@ -127,7 +127,8 @@ def rule_CF(ctx, tier):
         got = r[1] if r and r[0] == "variant" else None
         table[row] = got
         exp = want.get(row, "Multiple")
-        if got != exp:
+        refuse = ("Multiple", "Invalid")  # verify() refuses both; which of the two a refused row gets is only the wording of the error
+        if got != exp and not (got in refuse and exp in refuse):
             allok = False
             rr.fail("auth-table:%s" % ("".join("E" if x else "S" for x in row)), "get_auth_method(user %s, password %s, cookie %s) = %s, documented: %s" % (*("empty" if x else "set" for x in row), got, exp))
     if allok:
